@@ -148,6 +148,10 @@ def xy_spec(draw, families=None, costs=("chi2",), n_sources=(0, 4), x_errors=Tru
         k = draw(st.integers(1, npar - 1))
         for nm in draw(st.permutations(order))[:k]:
             fx[nm] = tb[nm] * draw(st.sampled_from([1.0, 1.0, 1.05, 0.9]))
+            # exactly 0.0 is a value like any other ("fix the offset to zero"); only where the model stays well defined: every parameter of a
+            # family that is linear in its parameters, and position / phase parameters of the others
+            if (F.linear or nm in ("mu", "phi", "x0")) and draw(st.integers(0, 5)) == 0:
+                fx[nm] = 0.0
     start = {nm: tb[nm] * (1 + 0.1 * draw(st.floats(-1, 1))) for nm in order}
     lim = {}
     if limits and draw(st.booleans()):
@@ -155,6 +159,9 @@ def xy_spec(draw, families=None, costs=("chi2",), n_sources=(0, 4), x_errors=Tru
         if nm not in fx:
             w = abs(tb[nm]) * draw(st.floats(0.3, 2.0)) + 0.1
             lim[nm] = [tb[nm] - w, tb[nm] + w]
+            if draw(st.integers(0, 3)) == 0 and tb[nm] != 0:
+                # a bound that is exactly 0.0 ("the amplitude is non-negative"); the truth stays inside
+                lim[nm] = [0.0, tb[nm] + w] if tb[nm] > 0 else [tb[nm] - w, 0.0]
     return {"type": "xy", "family": fam, "order": list(order), "x": [float(v) for v in x], "y": [float(v) for v in y], "truth": tb, "cost": cost,
             "sources": sources, "constraints": cons, "start": start, "fixed": fx, "limits": lim,
             "minimizer": draw(st.sampled_from(list(minimizers))), "dea": draw(st.sampled_from(list(deas))), "sigma": base_sigma * (y_scale or 1.0),
@@ -186,7 +193,7 @@ def indexed_spec(draw, costs=("chi2",), n_sources=(0, 4), model_sources=True, co
     fx = {}
     if fixed and n_par >= 2 and draw(st.booleans()):
         for nm in draw(st.permutations(names))[: draw(st.integers(1, n_par - 1))]:
-            fx[nm] = tb[nm]
+            fx[nm] = tb[nm] if draw(st.integers(0, 5)) else 0.0
     start = {nm: tb[nm] * (1 + 0.1 * draw(st.floats(-1, 1))) for nm in names}
     return {"type": "indexed", "n": n, "n_par": n_par, "nonlinear": nl, "data": [float(v) for v in d], "truth": tb, "cost": draw(st.sampled_from(list(costs))),
             "sources": sources, "constraints": cons, "start": start, "fixed": fx, "limits": {}, "minimizer": draw(st.sampled_from(list(minimizers))),
